@@ -27,7 +27,7 @@ func (x *Decimal) GobEncode() ([]byte, error) {
 	n := 0          // number of mantissa words
 	if x.form == finite {
 		// add space for mantissa and exponent
-		n = int((x.prec + (_DW - 1)) / _DW) // required mantissa length in words for given precision
+		n = int((uint64(x.prec) + (_DW - 1)) / _DW) // required mantissa length in words for given precision
 		// actual mantissa slice could be shorter (trailing 0's) or longer (unused bits):
 		// - if shorter, only encode the words present
 		// - if longer, cut off unused words when encoding in bytes
